@@ -246,13 +246,19 @@ class Engine:
         return int(v.__index__())
 
     # ---- path condition
-    def assume(self, c):
+    def assume(self, c, check=True):
+        """add a constraint to the path.  check=True (harness-level assumptions): an assumption that makes the
+        path condition unsatisfiable ends the path (otherwise every later decision would be vacuously 'forced').
+        check=False is for definitional constraints on fresh variables, which cannot make the path infeasible."""
         c = c.b if isinstance(c, SBool) else c
         if c is True:
             return
         if c is False or self.swallowed_abort:
             self.abort()
         self._push(c)
+        if check and len(self.script) >= len(self.prefix):
+            if self._check() == z3.unsat:
+                self.abort()
 
     def feasible(self, cond):
         """is pc /\\ cond satisfiable?  returns 'sat' | 'unsat' | 'unknown'"""
@@ -750,7 +756,7 @@ class SInt(_SNum):
             raise ZeroDivisionError('integer division or modulo by zero')
         q = ENG.fresh_int('q')
         r = ENG.fresh_int('m')
-        ENG.assume(z3.And(a == q * b + r, z3.If(b > 0, z3.And(r >= 0, r < b), z3.And(r <= 0, r > b))))
+        ENG.assume(z3.And(a == q * b + r, z3.If(b > 0, z3.And(r >= 0, r < b), z3.And(r <= 0, r > b))), check=False)
         return q, r
 
     def __floordiv__(self, o):
@@ -868,7 +874,7 @@ def sym_sqrt(x):
         if bool(SBool(neg)):
             raise ValueError('math domain error')
     r = ENG.fresh_real('sqrt')
-    ENG.assume(z3.And(r >= 0, r * r == _r(x.z)))
+    ENG.assume(z3.And(r >= 0, r * r == _r(x.z)), check=False)
     out = SReal(r)
     ENG.memo[key] = (sz, out)   # keep the term alive so that ids stay unique
     return out
